@@ -1,9 +1,9 @@
 package vc
 
 import (
-	"go/types"
 	"bufio"
 	"fmt"
+	"go/types"
 	"os"
 	"path/filepath"
 	"sort"
@@ -28,32 +28,32 @@ type LoopSpec struct {
 
 // Contract is the contract of one function.
 type Contract struct {
-	Pkg      string // package name (document, style, markdown)
-	Key      string // "(*Table).DeleteRow" or "New"
-	Props    []string
-	Requires []Clause
-	Ensures  []Clause
-	Modifies []string // heap specs ("Table.Rows", "[]TableRow", "*"); nil + !HasModifies => inferred
-	HasModifies bool
-	ModBuilders []Clause // "modifies sb(<expr>)": strings.Builder locations whose ghost content the function may change
-	Loops    map[int]*LoopSpec
-	Inline   bool // verified at each call site by inlining its body
-	Trusted  bool // contract assumed, body not verified (listed as assumption)
-	NoVerify bool
-	Pure     bool // callee writes nothing (modifies nothing)
-	File     string
-	Line     int
-	Lets     []LetDef // ghost definitions usable in clauses: let name = expr (evaluated at entry)
-	Uses     []string
-	Decreases *Clause // function-level measure (recursion)
-	Emits     []EmitSpec // ghost events this function appends (assumed at call sites)
-	WF       []string // heap specs for which heap well-formedness axioms are emitted
-	AppendFacts bool  // "appendfacts": emit the derived prefix facts of every append in this function (see doAppend)
-	Ghosts   []GhostDef // ghost integer constants (see "ghost" in loadFile)
-	Partial  bool // partial correctness: self-recursion without a measure is reported instead of being an obligation
-	NoPanicAssumed bool // the run-time checks of this function (nil, index, slice, ...) are assumed, not proved (reported)
-	Rebinds  []Rebind // per-callee instantiation of a callee's ghost constant (default: binding by name)
-	IgnoreEnsures []string // spec functions: callee postconditions mentioning one of them are not assumed in this function
+	Pkg            string // package name (document, style, markdown)
+	Key            string // "(*Table).DeleteRow" or "New"
+	Props          []string
+	Requires       []Clause
+	Ensures        []Clause
+	Modifies       []string // heap specs ("Table.Rows", "[]TableRow", "*"); nil + !HasModifies => inferred
+	HasModifies    bool
+	ModBuilders    []Clause // "modifies sb(<expr>)": strings.Builder locations whose ghost content the function may change
+	Loops          map[int]*LoopSpec
+	Inline         bool // verified at each call site by inlining its body
+	Trusted        bool // contract assumed, body not verified (listed as assumption)
+	NoVerify       bool
+	Pure           bool // callee writes nothing (modifies nothing)
+	File           string
+	Line           int
+	Lets           []LetDef // ghost definitions usable in clauses: let name = expr (evaluated at entry)
+	Uses           []string
+	Decreases      *Clause    // function-level measure (recursion)
+	Emits          []EmitSpec // ghost events this function appends (assumed at call sites)
+	WF             []string   // heap specs for which heap well-formedness axioms are emitted
+	AppendFacts    bool       // "appendfacts": emit the derived prefix facts of every append in this function (see doAppend)
+	Ghosts         []GhostDef // ghost integer constants (see "ghost" in loadFile)
+	Partial        bool       // partial correctness: self-recursion without a measure is reported instead of being an obligation
+	NoPanicAssumed bool       // the run-time checks of this function (nil, index, slice, ...) are assumed, not proved (reported)
+	Rebinds        []Rebind   // per-callee instantiation of a callee's ghost constant (default: binding by name)
+	IgnoreEnsures  []string   // spec functions: callee postconditions mentioning one of them are not assumed in this function
 }
 
 // Rebind: "rebind <callee-key-substring> <ghost> = <expr>": at calls of the matching callee the callee's ghost
@@ -124,15 +124,25 @@ type Template struct {
 }
 
 type ContractSet struct {
-	SharedPkg map[string]string // "Type.Field" -> package of the directive
-	Shared    map[string]string // "Type.Field" -> reason: fields a deep copy shares with its source (by pointer) instead of copying
-	Templates []Template
-	Funcs map[string]*Contract
-	Pures map[string]*PureFn
-	Order []string
-	Files []string
-	Axioms []AxiomDef
+	SharedPkg  map[string]string // "Type.Field" -> package of the directive
+	Shared     map[string]string // "Type.Field" -> reason: fields a deep copy shares with its source (by pointer) instead of copying
+	Templates  []Template
+	Funcs      map[string]*Contract
+	Pures      map[string]*PureFn
+	Order      []string
+	Files      []string
+	Axioms     []AxiomDef
 	GhostNames map[string]bool // every ghost constant declared by some contract
+	XMLOrders  []XMLOrderSpec  // xml-order directives (static check "xml-order")
+}
+
+// XMLOrderSpec: `//@ xml-order T: a, b, c` - the child ELEMENTS that encoding/xml writes for struct type T (fields with an
+// element tag, in declaration order, which is the order of the output) are exactly a, b, c in this order.
+type XMLOrderSpec struct {
+	Pkg, Type string
+	Names     []string
+	File      string
+	Line      int
 }
 
 type AxiomDef struct {
@@ -251,6 +261,18 @@ func (cs *ContractSet) loadFile(path string) error {
 				cs.SharedPkg = map[string]string{}
 			}
 			cs.SharedPkg[strings.TrimSpace(parts[0])] = pkg
+		case "xml-order":
+			parts := strings.SplitN(r.text, ":", 2)
+			if len(parts) != 2 {
+				return fmt.Errorf("%s:%d: xml-order wants `Type: name, name, ...`", path, r.line)
+			}
+			var names []string
+			for _, n := range strings.Split(parts[1], ",") {
+				if n = strings.TrimSpace(n); n != "" {
+					names = append(names, n)
+				}
+			}
+			cs.XMLOrders = append(cs.XMLOrders, XMLOrderSpec{Pkg: pkg, Type: strings.TrimSpace(parts[0]), Names: names, File: path, Line: r.line})
 		case "spec-fields":
 			cs.Templates = append(cs.Templates, Template{Pkg: pkg, Kw: "spec", Text: r.text, File: path, Line: r.line})
 		case "requires", "ensures", "invariant", "decreases":
